@@ -852,9 +852,9 @@ def run(ctx: fw.Ctx) -> int:
     detect_cases = run_detect_table(ctx, env)
     select_cases = run_select_table(ctx, env)
     deco_cases = run_decorator_table(ctx, env)
-    fin_cases = run_finalizers(ctx, env, G, ctx.scale(500, 20000))
-    run_passes(ctx, env, G, ctx.scale(2000, 15000), D)
-    run_histories(ctx, env, G, ctx.scale(150, 1000), ctx.scale(40, 60), D)
+    fin_cases = run_finalizers(ctx, env, G, ctx.scale(500, 6000))
+    run_passes(ctx, env, G, ctx.scale(2000, 10000), D)
+    run_histories(ctx, env, G, ctx.scale(150, 600), ctx.scale(40, 60), D)
     if _LOOP.get('loop') is not None:
         _LOOP['loop'].close()
         _LOOP['loop'] = None
